@@ -231,6 +231,16 @@ class Interp:
             want = U.sort(sortname)
             if v.sort() == want:
                 return v
+            vs = U.sort_name(v.sort())
+            opts = getattr(U, 'options', {})
+            if vs in opts and opts[vs] == sortname:
+                # an Optional value used where the plain value is needed: None here is a TypeError
+                some = U.sort(vs).recognizer(1)(v)
+                if not self.pure and not self.choose_bool(some, '@not-None'):
+                    raise SymRaise('TypeError', 'None where a %s is needed' % sortname)
+                return z3.simplify(U.sort(vs).accessor(1, 0)(v))
+            if sortname in opts and opts[sortname] == vs:
+                return U.sort(sortname).constructor(1)(v)
             raise OutsideSubset('sort mismatch: %s is %s, wanted %s' % (v, v.sort(), sortname))
         if sortname == 'Int' and isinstance(v, int) and not isinstance(v, bool):
             return z3.IntVal(v)
@@ -375,6 +385,8 @@ class Interp:
         return m(node)
 
     def ev_Constant(self, node):
+        if isinstance(node.value, bytes):
+            return node.value.decode('latin-1')      # bytes literals: the same sequence sort as str
         return node.value
 
     def ev_Name(self, node):
@@ -550,6 +562,8 @@ class Interp:
 
     def getattr(self, base, attr, node=None):
         U = self.U
+        if is_z3(base) and self.sort_of(base) in getattr(U, 'options', {}) and attr != 'v':
+            base = self.coerce(base, U.options[self.sort_of(base)])      # attribute of an Optional: None raises
         if is_z3(base):
             sn = self.sort_of(base)
             hook = getattr(U, 'attr_hooks', {}).get((sn, attr))
@@ -613,6 +627,26 @@ class Interp:
             hi = self.ev(sl.upper) if sl.upper else None
             if (lo is None or isinstance(lo, int)) and (hi is None or isinstance(hi, int)) and sl.step is None:
                 return base[lo:hi]
+        if is_z3(base) and self.sort_of(base) == 'Str' and isinstance(sl, ast.Slice) and sl.step is None:
+            lo = self.ev(sl.lower) if sl.lower is not None else 0
+            hi = self.ev(sl.upper) if sl.upper is not None else None
+            n = z3.Length(base)
+            for b in (lo, hi):
+                if b is not None and not (is_z3(b) or isinstance(b, int)):
+                    raise OutsideSubset('string slice bound')
+            # Python clamps slice bounds; negative bounds (counting from the end) are outside the subset:
+            # they generate an obligation that the bound is non-negative
+            for b, nm in ((lo, 'lower'), (hi, 'upper')):
+                if b is not None and not isinstance(b, int):
+                    if not self.pure and not self.choose_bool(b >= 0, '@slice-%s-nonneg' % nm):
+                        raise OutsideSubset('negative string slice bound')
+                elif isinstance(b, int) and b < 0:
+                    raise OutsideSubset('negative string slice bound')
+            lo_ = self.coerce(lo, 'Int')
+            if hi is None:
+                return z3.SubString(base, lo_, n - lo_)      # offset > len gives ""
+            hi_ = self.coerce(hi, 'Int')
+            return z3.SubString(base, lo_, z3.If(hi_ >= lo_, hi_ - lo_, 0))
         if is_z3(base):
             sn = self.sort_of(base)
             hook = getattr(U, 'subscript_hooks', {}).get(sn)
@@ -720,7 +754,10 @@ class Interp:
             sn = self.sort_of(v)
             parts = []
             for n in names:
-                if n == 'str' and (sn, 'Text') in U.ctors:
+                ih = getattr(U, 'isinstance_hooks', {}).get((sn, n))
+                if ih is not None:
+                    parts.append(ih(self, v))
+                elif n == 'str' and (sn, 'Text') in U.ctors:
                     parts.append(U.is_(sn, 'Text', v))
                 elif n == 'str' and sn == 'Str':
                     parts.append(True)
@@ -740,7 +777,7 @@ class Interp:
             if len(names) == 1 and isinstance(node.args[0], ast.Name):
                 n = names[0]
                 key = (sn, 'Text') if n == 'str' else U.classmap.get(n)
-                if key and key[0] == sn:
+                if key and key[0] == sn and key in U.ctors:
                     self._last_isinstance = (node.args[0].id, key, r)
             return r
         if isinstance(v, str):
@@ -838,6 +875,15 @@ class Interp:
         U = self.U
         if isinstance(obj, str) and name == 'format':
             return self.fresh('Str', 'fmt')          # the text of messages is not modelled
+        if isinstance(obj, str):
+            hook = getattr(U, 'method_hooks', {}).get(('Str', name))
+            if hook:
+                return hook(self, z3.StringVal(obj), args, kwargs, node)
+        if is_z3(obj):
+            osn = self.sort_of(obj)
+            opts = getattr(U, 'options', {})
+            if osn in opts:
+                obj = self.coerce(obj, opts[osn])       # method call on an Optional: None is an AttributeError/TypeError
         if isinstance(obj, tuple) and len(obj) >= 1 and isinstance(obj[0], str) and obj[0] == 'opaque':
             h = getattr(U, 'opaque_method', None)
             if h:
@@ -1095,6 +1141,21 @@ class Interp:
             eq_prefix.append(n == o)
         return z3.Or(*conds) if len(conds) > 1 else conds[0]
 
+    def check_havoc_complete(self, head, targets, ordinal):
+        for n, v0 in head.items():
+            if n in targets or n.startswith('__'):
+                continue
+            v1 = self.env.get(n)
+            same = (v1 is v0) or (is_z3(v0) and is_z3(v1) and v0.eq(v1))
+            if not same:
+                try:
+                    same = bool(v0 == v1) if not (is_z3(v0) or is_z3(v1)) else False
+                except Exception:       # noqa
+                    same = False
+            if not same:
+                raise OutsideSubset('loop %d changes variable %s, which was not havoced at the loop head '
+                                    '(unsound cut): declare it in the loop spec `modifies`' % (ordinal, n))
+
     def exec_ghost(self, src):
         import textwrap
         tree = ast.parse(textwrap.dedent(src))
@@ -1340,6 +1401,9 @@ class Interp:
                 if isinstance(n, ast.Call) and isinstance(n.func, ast.Attribute) and n.func.attr in MUT \
                         and isinstance(n.func.value, ast.Name):
                     names.add(n.func.value.id)
+                if isinstance(n, ast.Call) and isinstance(n.func, ast.Name) and n.func.id == 'next' and n.args \
+                        and isinstance(n.args[0], ast.Name):
+                    names.add(n.args[0].id)          # next(it) advances the iterator variable
                 if isinstance(n, ast.Call):
                     # callee contracts with modifies
                     f = n.func
@@ -1416,6 +1480,7 @@ class Interp:
         if self.out is not None:
             self.out = self.fresh(self.out_sort, 'out')
             self.env['__out__'] = self.out
+        head_snapshot = dict(self.env)
         # the loop-head state is what a counter-model of a loop-cut obligation describes
         self.inputs = dict(self.inputs)
         self.inputs['@loop%d' % ordinal] = {n: self.env[n] for n in sorted(targets)
@@ -1447,8 +1512,11 @@ class Interp:
         except ContinueSig:
             pass
         except BreakSig:
+            self.check_havoc_complete(head_snapshot, targets, ordinal)
             self.loop_ctx.pop()
             return
+        # soundness guard of the havoc: a variable the body changed must have been havoced at the head
+        self.check_havoc_complete(head_snapshot, targets, ordinal)
         # 4. back edge: ghost code first (it describes the step just taken in terms of the loop state)
         for src in spec.ghost_back:
             self.exec_ghost(src)
@@ -1562,8 +1630,65 @@ def _b_rank(I, args, kwargs, node):
     return I.U.rank[sn](v)
 
 
+def _b_next(I, args, kwargs, node):
+    """next(it) on a list-valued iterator variable: pops the head, StopIteration when exhausted"""
+    it = args[0]
+    U = I.U
+    sn = I.sort_of(it)
+    if not (is_z3(it) and sn in U.lists and U.lists[sn].kind == 'fwd'):
+        raise OutsideSubset('next() on %r' % (it,))
+    if len(args) > 1:
+        raise OutsideSubset('next() with a default')
+    if not I.choose_bool(U.is_cons(sn, it), '@next:has-item'):
+        raise SymRaise('StopIteration', 'iterator exhausted')
+    argn = node.args[0]
+    if not isinstance(argn, ast.Name):
+        raise OutsideSubset('next() on a non-variable')
+    I.env[argn.id] = z3.simplify(U.tl(sn, it))
+    return z3.simplify(U.hd(sn, it))
+
+
+def _b_zip(I, args, kwargs, node):
+    h = getattr(I.U, 'zip_hook', None)
+    if h is None:
+        raise OutsideSubset('zip()')
+    return h(I, args)
+
+
+def _b_cycle(I, args, kwargs, node):
+    return GenExp('cycle', items=args[0])
+
+
+def _b_chain(I, args, kwargs, node):
+    a, b = args
+    U = I.U
+    sa = I.sort_of(a)
+    if is_z3(a) and sa in U.lists and U.lists[sa].kind == 'snoc' and isinstance(b, list):
+        t = a
+        for x in b:
+            t = U.cons(sa, I.coerce(x, U.lists[sa].elem), t)
+        return t
+    raise OutsideSubset('chain() shape')
+
+
+def _b_cons(I, args, kwargs, node):
+    """cons(h, t): [h] + t for a forward list (spec functions only)"""
+    h, t = args
+    sn = I.sort_of(t)
+    if isinstance(t, list) and not t:
+        raise OutsideSubset('cons onto an untyped empty list: give the tail a sort')
+    return I.U.cons(sn, I.coerce(h, I.U.lists[sn].elem), t)
+
+
+def _b_unwrap(I, args, kwargs, node):
+    v = args[0]
+    sn = I.sort_of(v)
+    return I.coerce(v, I.U.options[sn])
+
+
 BUILTINS = {
-    'rank': _b_rank,
+    'cons': _b_cons, 'unwrap': _b_unwrap,
+    'rank': _b_rank, 'next': _b_next, 'zip': _b_zip, 'cycle': _b_cycle, 'chain': _b_chain,
     'len': _b_len, 'min': _b_min, 'max': _b_max, 'reversed': _b_reversed, 'copy': _b_copy,
     'list': _b_list, 'bool': _b_bool, 'round': _b_round, 'iter': _b_iter,
     'implies': _b_implies, 'iff': _b_iff, 'abs': _b_abs,
